@@ -182,12 +182,48 @@ def run_case(case, ch):
             store = FaultStore(w, {int(k): v for k, v in plan.items()}, log)
             q = Queue(store, relay=None, store_pool=case.get('store_pool'))
             add_policies(q, chain)
+        elif queue_kind == 'queue-disk':
+            # real DiskStorage over the in-memory FS; aio requests may complete for fewer bytes than asked
+            import slimta.diskstorage as ds
+            from engine import memfs
+            fs = memfs.MemFS()
+            memfs.bind(w, fs, chunk_size=64)
+            fs.short_chooser = ch
+            q = Queue(ds.DiskStorage('/q/env', '/q/meta', '/q/tmp'), relay=None)
+            add_policies(q, chain)
+            obs['fs'] = fs
+        elif queue_kind == 'proxy-pipe':
+            # ProxyQueue in front of the real PipeRelay; the delivery program's fate is scripted
+            import slimta.relay.pipe as pipe
+            from fakes.fakepopen import FakeSubprocess
+            fate = plan['pipe']
+            per = bool(plan.get('per_recipient'))
+
+            def script(args, stdin, k):
+                f = fate
+                if f.startswith('first-ok-rest-'):
+                    f = 'ok' if k == 0 else f[len('first-ok-rest-'):]
+                who = tuple(rcpts[k:k + 1]) if per else tuple(rcpts)
+                log['started'].append(who)
+                if f == 'ok':
+                    log['completed'].append(who)
+                    return (0, b'', b'')
+                log['failed'].append(who)
+                return {'temp': (75, b'4.2.0 later\n', b''), 'perm': (1, b'5.1.1 no such user\n', b''), 'killed': (-9, b'', b''),
+                        'status255': (255, b'', b'')}[f]
+            w.patch(pipe, 'subprocess', FakeSubprocess(script))
+            relay = pipe.PipeRelay(['deliver', '{recipient}'])
+            relay.per_recipient = per
+            q = ProxyQueue(relay)
         else:
             q = ProxyQueue(ScriptedProxyRelay(plan['relay'], log))
 
         def snapshot():
-            return {'completed': list(log['completed']), 'failed': list(log['failed']), 'pending': log['pending'],
+            snap = {'completed': list(log['completed']), 'failed': list(log['failed']), 'pending': log['pending'],
                     'started': list(log['started'])}
+            if queue_kind == 'queue-disk':
+                obs['files_at_final'] = dict(obs['fs'].files)
+            return snap
         if edge_kind == 'smtp':
             net = Net(w)
             csock, ssock = net.pair()
@@ -254,7 +290,39 @@ def run_case(case, ch):
                 edge_wsgi.PtrLookup = saved
         obs['errors'] = w.errors()
     obs['log'] = log
+    if queue_kind == 'queue-disk':
+        obs.pop('fs', None)
+        if obs.get('files_at_final') is not None:
+            obs['stored_at_final'] = read_back(obs.pop('files_at_final'))
     return obs
+
+
+def read_back(files):
+    """what a fresh DiskStorage finds in the directory as it was when the edge sent its final reply"""
+    import slimta.diskstorage as ds
+    from engine import memfs
+    out = []
+    with World(Chooser(), uuid_modules=UUID_MODULES, max_steps=50000) as w:
+        fs = memfs.MemFS(files=files)
+        memfs.bind(w, fs, chunk_size=64)
+        st = ds.DiskStorage('/q/env', '/q/meta', '/q/tmp')
+
+        def body():
+            try:
+                ids = sorted(i for t, i in st.load())
+            except BaseException as e:
+                out.append(('load-raised', type(e).__name__))
+                return
+            for i in ids:
+                try:
+                    env, attempts = st.get(i)
+                    hdr, body_ = env.flatten()
+                    out.append((env.sender, tuple(env.recipients), body_))
+                except BaseException as e:
+                    out.append(('get-raised', type(e).__name__))
+        gevent.spawn(body)
+        w.run_until_quiescent()
+    return out
 
 
 def judge(case, obs):
@@ -271,20 +339,30 @@ def judge(case, obs):
             out.append((dict(base, kind='edge-never-answered'), desc))
         return out
     snap = obs['at_final']
+    if final[0] == '2' and case['queue'] == 'queue-disk':
+        want = sorted(('s@o.test', g, b'body\r\n') for g in expected_envelopes(case['chain'], rcpts))
+        got = sorted(obs.get('stored_at_final') or [], key=repr)
+        if got != sorted(want, key=repr):
+            out.append((dict(base, kind='acknowledged-but-not-intact-in-storage', chain=case['chain']),
+                        desc + '; a fresh DiskStorage over the directory as it was at that instant finds %r, expected %r' % (got, want)))
+        return out
     if final[0] == '2':
-        want = expected_envelopes(case['chain'], rcpts) if case['queue'] == 'queue' else [tuple(rcpts)]
+        if case['queue'] == 'proxy-pipe' and case['plan'].get('per_recipient'):
+            want = [(r,) for r in rcpts]
+        else:
+            want = expected_envelopes(case['chain'], rcpts) if case['queue'] == 'queue' else [tuple(rcpts)]
         done = sorted(snap['completed'])
         if snap['pending']:
             out.append((dict(base, kind='acknowledged-before-write-completed'), desc))
         if snap['failed']:
-            fk = 'per-recipient-result' if case['queue'] == 'proxy' and str(case['plan'].get('relay', '')).startswith('map') else \
+            fk = 'pipe-relay' if case['queue'] == 'proxy-pipe' else 'per-recipient-result' if case['queue'] == 'proxy' and str(case['plan'].get('relay', '')).startswith('map') else \
                 ('failure-not-first' if case['queue'] == 'queue' and min(int(k) for k in case['plan']) > 0 else 'failure')
             out.append((dict(base, kind='acknowledged-although-a-write-failed', which=fk), desc))
         elif sorted(want) != done:
             out.append((dict(base, kind='acknowledged-without-custody-of-all', chain=case['chain']), desc + ' expected writes %r' % (sorted(want),)))
     else:
         pass        # 4xx/5xx (or 421) is always allowed by the property
-    if final[0] != '2' and case['queue'] == 'queue' and not case['plan']:
+    if final[0] != '2' and case['queue'] in ('queue', 'queue-disk') and not case['plan']:
         out.append((dict(base, kind='refused-without-fault'), desc))
     return out
 
@@ -314,6 +392,13 @@ def cases(tier):
         for n in (1, 2, 3):
             for o in ['none', 'reply', 'temp', 'perm', 'exc'] + ['map:' + ''.join(a) for a in itertools.product('otp', repeat=n)]:
                 yield {'edge': edge, 'queue': 'proxy', 'chain': 'none', 'n': n, 'plan': {'relay': o}}
+        for n in (1, 2):
+            for per in (False, True):
+                for fate in ('ok', 'temp', 'perm', 'killed', 'status255') + (('first-ok-rest-temp', 'first-ok-rest-killed', 'first-ok-rest-perm') if per and n > 1 else ()):
+                    yield {'edge': edge, 'queue': 'proxy-pipe', 'chain': 'none', 'n': n, 'plan': {'pipe': fate, 'per_recipient': per}}
+        for chain in ('none', 'split', 'date+domainsplit'):
+            for n in (1, 2):
+                yield {'edge': edge, 'queue': 'queue-disk', 'chain': chain, 'n': n, 'plan': {}}
 
 
 def configs(tier, seed):
